@@ -16,7 +16,7 @@
             instructions include every misuse: parameter-count and qubit-count mismatches, modifiers on a
             sequence gate (inner and outer), a non-fixed qubit argument, self-reference, plus modifiers on
             base gates, an undefined gate name, a non-sequence definition and a non-gate instruction, which
-            must all pass through untouched.  x all 8 filters over {SA, SB, MG}.
+            must all pass through untouched.  x all 8 filters over {SA, SB, MG} (quick tier: see FilterLevel).
 
    Excluded by construction (not meaningful input of the property): definitions with duplicate formal
    names, element gates on fixed qubits (rejected by DefGateSequence::try_new), gates without qubits
@@ -24,7 +24,9 @@
 EXTENDS GateSequence, Json
 CONSTANTS Family,      \* "graph" | "subst"
           W1, W2, W3,  \* max number of elements of the 1st, 2nd, 3rd definition (W3 unused in "subst")
-          BodyLevel    \* 1: the basic bodies, 2: more
+          BodyLevel,   \* 1: the basic bodies, 2: more
+          FilterLevel  \* 2: all 8 filters for every table; 1: all 8 filters when the first definition has one
+                       \*    element, {everything selected, only the first definition selected} when it has two
 
 Width == <<W1, W2, W3>>
 qa == QVar("a")
@@ -92,13 +94,16 @@ DefChoices(n) == IF Family = "graph" THEN GDefChoices(n) ELSE SDefChoices(n)
 Bodies == IF Family = "graph" THEN GBodies ELSE SBodies
 FilterNames == IF Family = "graph" THEN GFilterNames ELSE SFilterNames
 
+FilterChoices == IF FilterLevel >= 2 \/ Len(defs[1].gates) < 2 THEN SUBSET FilterNames
+                 ELSE {FilterNames, {defs[1].name}}
+
 Init == /\ defs = <<>> /\ filter = {} /\ body = <<>> /\ phase = "gen"
         /\ ksrc = <<>> /\ kreach = {} /\ kept = None /\ frames = <<>> /\ estack = <<>> /\ result = None
 GenDef == /\ phase = "gen" /\ Len(defs) < NDefs
           /\ \E d \in DefChoices(Len(defs) + 1) : defs' = Append(defs, d)
           /\ UNCHANGED <<filter, body, phase, ksrc, kreach, kept, frames, estack, result>>
 GenInput == /\ phase = "gen" /\ Len(defs) = NDefs
-            /\ \E f \in SUBSET FilterNames, bd \in Bodies : Start(defs, f, bd)
+            /\ \E f \in FilterChoices, bd \in Bodies : Start(defs, f, bd)
 Next == GenDef \/ GenInput \/ RunNext
 Spec == Init /\ [][Next]_vars
 
